@@ -23,6 +23,8 @@ META = {
     'trusted_base': ['python ast', 'sa.model method resolution', 'sa/specs/text.json'],
     'exhaustive': True,
 }
+
+META['explanation'] += ' ' + 'R6: header line spellings over the ParserText model - name case, SP / HTAB runs after the colon and before the CRLF, for both line parsers. R7: SPF network composer. R8: SPF mechanism names (with and without qualifier), version and modifier names over case patterns, and the term loop over 0..3 trailing spaces.'
 HERE = os.path.dirname(os.path.dirname(os.path.abspath(__file__)))
 
 
